@@ -97,6 +97,16 @@ CLAIMED = {
          "Trusted: CPython's ast parser, sa/terms.py, sa/symlen.py (length algebra), sa/props/c05.py. Assumes identifiers "
          "have exactly param_identifier_size bytes (valid-database domain) and len(Encrypt(k,m)) depends only on len(m) "
          "(C14). Equality of measured shapes on concrete databases is not examined."),
+ "C03": ("writer/reader agreement of wire formats on use-def terms + symbolic field lengths modulo enforced equalities",
+         "Decides, for all 36 structure classes, that serialize and deserialize agree: field sequence (concatenation / pickled "
+         "tuple) vs slices, pieces and unpacking; constructor parameter->attribute order; every fixed-offset field length, as a "
+         "polynomial in the configuration parameters, equals the symbolic length the field has where the object is constructed "
+         "(_Gen/_Trap) modulo the equalities that the primitives' run-time guards enforce; the checked total equals the sum; "
+         "headers are written, skipped and verified symmetrically; __eq__ compares every slot. Also decides that _Search reads "
+         "only index, token and self.config, that a config object is a function of its dict (no module-level tables, no "
+         "environment), and that each loader names existing classes and the advertised scheme path.",
+         "Trusted: CPython's ast parser, sa/terms.py, sa/symlen.py, sa/contracts.py, sa/props/c03.py. Assumes pickle "
+         "round-trips built-in containers of bytes. Equality of concrete deserialized objects is not computed."),
 }
 NA_REASON = "check under construction in this session (see DESIGN.md section 3); not yet registered"
 NA = {}
